@@ -672,12 +672,16 @@ func (obj *SparseInt16Matrix) JointIterator(b ConstMatrix) MatrixJointIterator {
   return obj.JOINT_ITERATOR(b)
 }
 func (obj *SparseInt16Matrix) ITERATOR() *SparseInt16MatrixIterator {
-  r := SparseInt16MatrixIterator{*obj.values.ITERATOR(), obj}
+  // start at the first element of the (possibly sliced) matrix
+  k := obj.rowOffset*obj.colMax + obj.colOffset
+  r := SparseInt16MatrixIterator{*obj.values.ITERATOR_FROM(k), obj}
+  r.clip()
   return &r
 }
 func (obj *SparseInt16Matrix) ITERATOR_FROM(i, j int) *SparseInt16MatrixIterator {
   k := obj.index(i, j)
   r := SparseInt16MatrixIterator{*obj.values.ITERATOR_FROM(k), obj}
+  r.clip()
   return &r
 }
 func (obj *SparseInt16Matrix) JOINT_ITERATOR(b ConstMatrix) *SparseInt16MatrixJointIterator {
@@ -698,6 +702,28 @@ type SparseInt16MatrixIterator struct {
 }
 func (obj *SparseInt16MatrixIterator) Index() (int, int) {
   return obj.m.ij(obj.SparseInt16VectorIterator.Index())
+}
+func (obj *SparseInt16MatrixIterator) Ok() bool {
+  if !obj.SparseInt16VectorIterator.Ok() {
+    return false
+  }
+  // stop after the last row of a sliced matrix
+  i, _ := obj.Index()
+  return i < obj.m.rows
+}
+func (obj *SparseInt16MatrixIterator) Next() {
+  obj.SparseInt16VectorIterator.Next()
+  obj.clip()
+}
+// skip entries of the storage that are not within the columns of a
+// sliced matrix
+func (obj *SparseInt16MatrixIterator) clip() {
+  for obj.Ok() {
+    if _, j := obj.Index(); j >= 0 && j < obj.m.cols {
+      break
+    }
+    obj.SparseInt16VectorIterator.Next()
+  }
 }
 func (obj *SparseInt16MatrixIterator) Clone() *SparseInt16MatrixIterator {
   return &SparseInt16MatrixIterator{*obj.SparseInt16VectorIterator.Clone(), obj.m}
